@@ -36,15 +36,90 @@ theorem validTok_of_B (t : String) (h : validTokB t = true) : validTok t := by
   simp only [validTokB, Bool.and_eq_true, Bool.not_eq_true', List.all_eq_true] at h
   refine ⟨by intro e; simp [e] at h, fun c hc => by simpa using h.2 c hc⟩
 
+/-- the (normalised) property name is usable: not empty, no `;`, no `:` -/
+def validPropB (n : String) : Bool :=
+  let k := normName (trimL n.toList)
+  !k.isEmpty && !k.contains ';' && !k.contains ':'
+
+/-- the (trimmed) value cannot break out of its declaration -/
+def validPropValB (v : String) : Bool := !(trimL v.toList).contains ';'
+
+theorem PK_of_valid (n : String) (h : validPropB n = true) : PK (normProp n) := by
+  simp only [validPropB, Bool.and_eq_true, Bool.not_eq_true', List.contains_eq_mem,
+    decide_eq_false_iff_not] at h
+  refine ⟨?_, ?_, ?_, ?_⟩ <;> simp only [normProp, String.toList_ofList]
+  · intro e; simp [e] at h
+  · exact h.1.2
+  · exact h.2
+  · exact normTrim_idem _
+
+theorem PV_of_valid (v : String) (h : validPropValB v = true) (hne : (trimL v.toList).isEmpty = false) :
+    PV (trimS v) := by
+  simp only [validPropValB, Bool.not_eq_true', List.contains_eq_mem, decide_eq_false_iff_not] at h
+  refine ⟨?_, ?_, ?_⟩ <;> simp only [trimS, String.toList_ofList]
+  · intro e; simp [e] at hne
+  · exact h
+  · exact trimL_idem _
+
+/-- `style.removeProperty` on cells -/
+theorem step_removeProp (d : Dom) (el : Id) (n : String) (r : NodeRec)
+    (hg : d.get? el = some r) (hk : r.kind.isElem = true) :
+    StepRes d (d.removeCssProperty el n) el r (fun c =>
+      match c with
+      | .sty m => if m = normProp n then none else cellVal r.attrs (.sty m)
+      | c => cellVal r.attrs c) := by
+  obtain ⟨⟨r', h1, h2, h3, h4⟩, h5, h6⟩ := removeCssProperty_attrs d el n r hg hk
+  refine ⟨⟨r', h1, h2, fun c => ?_⟩, h5, h6⟩
+  have hcs : ("class" : String) ≠ "style" := by decide
+  cases c with
+  | named k =>
+    simp only [cellVal]
+    by_cases hkk : k = "class" ∨ k = "style"
+    · simp [hkk]
+    · simp only [hkk, if_false]; exact h3 k (fun e => hkk (Or.inr e))
+  | cls t =>
+      have e : clsOf r'.attrs = clsOf r.attrs := by simp only [clsOf, h3 "class" hcs]
+      simp only [cellVal, e]
+  | sty m => simp only [cellVal, h4 m]
+
+/-- `style.setProperty` on cells (a blank value removes) -/
+theorem step_prop (d : Dom) (el : Id) (n v : String) (r : NodeRec)
+    (hg : d.get? el = some r) (hk : r.kind.isElem = true)
+    (hn : validPropB n = true) (hv : validPropValB v = true) :
+    StepRes d (d.setCssProperty el n v) el r (fun c =>
+      match c with
+      | .sty m => if m = normProp n then propVal v else cellVal r.attrs (.sty m)
+      | c => cellVal r.attrs c) := by
+  by_cases hb : (trimL v.toList).isEmpty = true
+  · rw [setCssProperty_blank d el n v hb]
+    refine (step_removeProp d el n r hg hk).congr (fun c => ?_)
+    cases c <;> simp [propVal, hb]
+  · have hb' : (trimL v.toList).isEmpty = false := by simpa using hb
+    obtain ⟨⟨r', h1, h2, h3, h4⟩, h5, h6⟩ :=
+      setCssProperty_attrs d el n v r hg hk (PK_of_valid n hn) (PV_of_valid v hv hb')
+    refine ⟨⟨r', h1, h2, fun c => ?_⟩, h5, h6⟩
+    have hcs : ("class" : String) ≠ "style" := by decide
+    cases c with
+    | named k =>
+      simp only [cellVal]
+      by_cases hkk : k = "class" ∨ k = "style"
+      · simp [hkk]
+      · simp only [hkk, if_false]; exact h3 k (fun e => hkk (Or.inr e))
+    | cls t =>
+      have e : clsOf r'.attrs = clsOf r.attrs := by simp only [clsOf, h3 "class" hcs]
+      simp only [cellVal, e]
+    | sty m => simp only [cellVal, h4 m, propVal, hb', Bool.false_eq_true, if_false]
+
 /-- the item is one the cell semantics covers: named keys are not `class` / `style`, toggled class
-names are valid tokens -/
+names are valid tokens, style property names / values cannot break out of their declaration -/
 def itemOk : AttrVal → Bool
   | .str n _ => n != "class" && n != "style"
   | .ostr n _ => n != "class" && n != "style"
   | .bool n _ => n != "class" && n != "style"
   | .tcls n _ => validTokB n
-  | .psty _ _ => false
-  | .opsty _ _ => false
+  | .psty n v => validPropB n && validPropValB v
+  | .opsty n (some v) => validPropB n && validPropValB v
+  | .opsty n none => validPropB n
   | _ => true
 
 /-- building one item on an element whose cells owned by the item are still empty -/
@@ -102,8 +177,17 @@ theorem buildAttr_cells (a : AttrVal) (d : Dom) (el : Id) (r : NodeRec)
     have : ("style" : String) ≠ "class" := by decide
     refine (step_set d el "style" v r hg hk).congr (fun c => ?_)
     cases c <;> simp [owns, wval, this]
-  | psty _ _ => simp [itemOk] at ok
-  | opsty _ _ => simp [itemOk] at ok
+  | psty n v =>
+    simp only [itemOk, Bool.and_eq_true] at ok
+    refine (step_prop d el n v r hg hk ok.1 ok.2).congr (fun c => ?_)
+    cases c <;> simp [owns, wval]
+  | opsty n v =>
+    cases v with
+    | none => exact hidle.congr (fun c => by cases c <;> simp [owns, wval])
+    | some v =>
+      simp only [itemOk, Bool.and_eq_true] at ok
+      refine (step_prop d el n v r hg hk ok.1 ok.2).congr (fun c => ?_)
+      cases c <;> simp [owns, wval]
 
 
 theorem rebuildAttr_state (a b : AttrVal) (er : Bool) (d : Dom) (el : Id) (hty : a.ty = b.ty) :
@@ -139,6 +223,165 @@ theorem rebuildAttr_tcls_fst (er : Bool) (el : Id) (d : Dom) (na nb : String) (o
       else (if onb != ona then (if onb then d.addClass el nb else d.removeClass el nb) else d) := by
   simp only [rebuildAttr]; split <;> rfl
 
+/-- nothing is written: every owned cell already holds the new value -/
+theorem step_idle (a b : AttrVal) (d : Dom) (el : Id) (r : NodeRec) (hg : d.get? el = some r)
+    (h1 : ∀ c, owns b c = true → wval b c = cellVal r.attrs c)
+    (h2 : ∀ c, owns a c = true → owns b c = false → cellVal r.attrs c = none) :
+    StepRes d d el r
+      (fun c => if owns b c then wval b c else if owns a c then none else cellVal r.attrs c) := by
+  refine (StepRes.id hg).congr (fun c => ?_)
+  by_cases hb : owns b c = true
+  · simp [hb, h1 c hb]
+  · by_cases ha : owns a c = true
+    · simp [hb, ha, h2 c ha (by simpa using hb)]
+    · simp [hb, ha]
+
+theorem rebuildAttr_cells_psty (na nb : String) (va vb : String)
+    (er : Bool) (d : Dom) (el : Id) (r : NodeRec)
+    (hg : d.get? el = some r) (hk : r.kind.isElem = true)
+    (oka : itemOk (.psty na va) = true) (okb : itemOk (.psty nb vb) = true)
+    (hcur : ∀ c, owns (.psty na va) c = true → cellVal r.attrs c = wval (.psty na va) c)
+    (hnew : ∀ c, owns (.psty nb vb) c = true → owns (.psty na va) c = false →
+      cellVal r.attrs c = none) :
+    StepRes d (rebuildAttr er el d (.psty nb vb) (.psty na va)).1 el r
+      (fun c => if owns (.psty nb vb) c then wval (.psty nb vb) c
+        else if owns (.psty na va) c then none else cellVal r.attrs c) := by
+  have hidle := step_idle (.psty na va) (.psty nb vb) d el r hg
+  simp only [itemOk, Bool.and_eq_true] at oka okb
+  have htarget : ∀ (f : Cell → Option String),
+      (∀ k, f (.named k) = cellVal r.attrs (.named k)) →
+      (∀ t, f (.cls t) = cellVal r.attrs (.cls t)) →
+      (∀ m, f (.sty m) = if m = normProp nb then propVal vb
+        else if m = normProp na then none else cellVal r.attrs (.sty m)) →
+      ∀ c, f c = (if owns (.psty nb vb) c then wval (.psty nb vb) c
+        else if owns (.psty na va) c then none else cellVal r.attrs c) := by
+    intro f h1 h2 h3 c
+    cases c with
+    | named k => simp [owns, h1]
+    | cls t => simp [owns, h2]
+    | sty m => simp only [owns, wval, beq_iff_eq, h3 m]
+  show StepRes d (rebuildAttr er el d (.psty nb vb) (.psty na va)).1 el r _
+  by_cases hn : nb = na
+  · subst hn
+    have e : (rebuildAttr er el d (.psty nb vb) (.psty nb va)).1 =
+        if vb != va then d.setCssProperty el nb vb else d := by
+      simp only [rebuildAttr, bne_self_eq_false, Bool.false_eq_true, if_false]
+    rw [e]
+    by_cases hv : vb = va
+    · subst hv
+      simp only [bne_self_eq_false, Bool.false_eq_true, if_false]
+      exact hidle (fun c hc => by rw [hcur c hc]) (fun c h1 h2 => by simp_all [owns])
+    · have : (vb != va) = true := by simpa using hv
+      simp only [this, if_true]
+      refine (step_prop d el nb vb r hg hk okb.1 okb.2).congr
+        (htarget _ (fun _ => rfl) (fun _ => rfl) (fun m => ?_))
+      by_cases h1 : m = normProp nb <;> simp [h1]
+  · have hne : (nb != na) = true := by simpa using hn
+    have e : (rebuildAttr er el d (.psty nb vb) (.psty na va)).1 =
+        (d.removeCssProperty el na).setCssProperty el nb vb := by
+      simp only [rebuildAttr, hne, if_true]
+    rw [e]
+    have s1 := step_removeProp d el na r hg hk
+    obtain ⟨r1, hg1, hk1, hc1⟩ := s1.rec hk
+    have s2 := step_prop (d.removeCssProperty el na) el nb vb r1 hg1 hk1 okb.1 okb.2
+    refine (s1.comp hg1 s2).congr
+      (htarget _ (fun k => by simp [hc1]) (fun t => by simp [hc1]) (fun m => ?_))
+    by_cases h1 : m = normProp nb
+    · simp [h1]
+    · by_cases h2 : m = normProp na <;> simp [h1, h2, hc1]
+
+theorem rebuildAttr_cells_opsty (na nb : String) (va vb : Option String)
+    (er : Bool) (d : Dom) (el : Id) (r : NodeRec)
+    (hg : d.get? el = some r) (hk : r.kind.isElem = true)
+    (oka : itemOk (.opsty na va) = true) (okb : itemOk (.opsty nb vb) = true)
+    (hcur : ∀ c, owns (.opsty na va) c = true → cellVal r.attrs c = wval (.opsty na va) c)
+    (hnew : ∀ c, owns (.opsty nb vb) c = true → owns (.opsty na va) c = false →
+      cellVal r.attrs c = none) :
+    StepRes d (rebuildAttr er el d (.opsty nb vb) (.opsty na va)).1 el r
+      (fun c => if owns (.opsty nb vb) c then wval (.opsty nb vb) c
+        else if owns (.opsty na va) c then none else cellVal r.attrs c) := by
+  have hidle := step_idle (.opsty na va) (.opsty nb vb) d el r hg
+  have hwb : ∀ m, wval (.opsty nb vb) (.sty m) = vb.bind propVal := by
+    intro m; cases vb <;> rfl
+  have hwa : ∀ m, wval (.opsty na va) (.sty m) = va.bind propVal := by
+    intro m; cases va <;> rfl
+  have hcurA : cellVal r.attrs (.sty (normProp na)) = va.bind propVal := by
+    rw [hcur (.sty (normProp na)) (by simp [owns]), hwa]
+  have htarget : ∀ (f : Cell → Option String),
+      (∀ k, f (.named k) = cellVal r.attrs (.named k)) →
+      (∀ t, f (.cls t) = cellVal r.attrs (.cls t)) →
+      (∀ m, f (.sty m) = if m = normProp nb then vb.bind propVal
+        else if m = normProp na then none else cellVal r.attrs (.sty m)) →
+      ∀ c, f c = (if owns (.opsty nb vb) c then wval (.opsty nb vb) c
+        else if owns (.opsty na va) c then none else cellVal r.attrs c) := by
+    intro f h1 h2 h3 c
+    cases c with
+    | named k => simp [owns, h1]
+    | cls t => simp [owns, h2]
+    | sty m => simp only [owns, hwb, beq_iff_eq, h3 m]
+  show StepRes d (rebuildAttr er el d (.opsty nb vb) (.opsty na va)).1 el r _
+  by_cases hn : nb = na
+  · subst hn
+    have e : (rebuildAttr er el d (.opsty nb vb) (.opsty nb va)).1 =
+        (match va, vb with
+          | none, none => d
+          | some _, none => d.removeCssProperty el nb
+          | none, some x => d.setCssProperty el nb x
+          | some o, some x => if x != o then d.setCssProperty el nb x else d) := by
+      simp only [rebuildAttr, bne_self_eq_false, Bool.false_eq_true, if_false]
+      cases va <;> cases vb <;> rfl
+    rw [e]
+    cases va <;> cases vb
+    · exact hidle (fun c hc => by rw [hcur c hc]) (fun c h1 h2 => by simp_all [owns])
+    · rename_i x
+      simp only [itemOk, Bool.and_eq_true] at okb
+      refine (step_prop d el nb x r hg hk okb.1 okb.2).congr
+        (htarget _ (fun _ => rfl) (fun _ => rfl) (fun m => ?_))
+      by_cases h1 : m = normProp nb <;> simp [h1]
+    · rename_i o
+      refine (step_removeProp d el nb r hg hk).congr
+        (htarget _ (fun _ => rfl) (fun _ => rfl) (fun m => ?_))
+      by_cases h1 : m = normProp nb <;> simp [h1]
+    · rename_i o x
+      simp only [itemOk, Bool.and_eq_true] at okb
+      by_cases hv : x = o
+      · subst hv
+        simp only [bne_self_eq_false, Bool.false_eq_true, if_false]
+        exact hidle (fun c hc => by rw [hcur c hc]) (fun c h1 h2 => by simp_all [owns])
+      · have : (x != o) = true := by simpa using hv
+        simp only [this, if_true]
+        refine (step_prop d el nb x r hg hk okb.1 okb.2).congr
+          (htarget _ (fun _ => rfl) (fun _ => rfl) (fun m => ?_))
+        by_cases h1 : m = normProp nb <;> simp [h1]
+  · have hne : (nb != na) = true := by simpa using hn
+    have e : (rebuildAttr er el d (.opsty nb vb) (.opsty na va)).1 =
+        (match vb with
+          | some x => (d.removeCssProperty el na).setCssProperty el nb x
+          | none => d.removeCssProperty el na) := by
+      simp only [rebuildAttr, hne, if_true]
+      cases vb <;> rfl
+    rw [e]
+    have s1 := step_removeProp d el na r hg hk
+    obtain ⟨r1, hg1, hk1, hc1⟩ := s1.rec hk
+    cases vb with
+    | none =>
+      refine s1.congr (htarget _ (fun _ => rfl) (fun _ => rfl) (fun m => ?_))
+      by_cases h1 : m = normProp nb
+      · subst h1
+        by_cases h2 : normProp nb = normProp na
+        · simp [h2]
+        · have := hnew (.sty (normProp nb)) (by simp [owns]) (by simp [owns, h2])
+          simp [h2, this]
+      · by_cases h2 : m = normProp na <;> simp [h1, h2]
+    | some x =>
+      simp only [itemOk, Bool.and_eq_true] at okb
+      have s2 := step_prop (d.removeCssProperty el na) el nb x r1 hg1 hk1 okb.1 okb.2
+      refine (s1.comp hg1 s2).congr
+        (htarget _ (fun k => by simp [hc1]) (fun t => by simp [hc1]) (fun m => ?_))
+      by_cases h1 : m = normProp nb
+      · simp [h1]
+      · by_cases h2 : m = normProp na <;> simp [h1, h2, hc1]
+
 /-- rebuilding one item: the cells the new value owns get its values, the cells only the old value
 owned are cleared, every other cell is left alone — provided the old value's cells hold what it
 wrote (`hcur`) and the cells that only the new value owns are still empty (`hnew`) -/
@@ -150,18 +393,7 @@ theorem rebuildAttr_cells (a b : AttrVal) (er : Bool) (d : Dom) (el : Id) (r : N
     StepRes d (rebuildAttr er el d b a.initState).1 el r
       (fun c => if owns b c then wval b c else if owns a c then none else cellVal r.attrs c) ∧
     (rebuildAttr er el d b a.initState).2 = b.initState := by
-  -- nothing is written: every owned cell already holds the new value
-  have hidle : (∀ c, owns b c = true → wval b c = cellVal r.attrs c) →
-      (∀ c, owns a c = true → owns b c = false → cellVal r.attrs c = none) →
-      StepRes d d el r
-        (fun c => if owns b c then wval b c else if owns a c then none else cellVal r.attrs c) := by
-    intro h1 h2
-    refine (StepRes.id hg).congr (fun c => ?_)
-    by_cases hb : owns b c = true
-    · simp [hb, h1 c hb]
-    · by_cases ha : owns a c = true
-      · simp [hb, ha, h2 c ha (by simpa using hb)]
-      · simp [hb, ha]
+  have hidle := step_idle a b d el r hg
   refine ⟨?_, rebuildAttr_state a b er d el hty⟩
   cases a <;> cases b <;> simp [AttrVal.ty] at hty
   case str.str na va nb vb =>
@@ -333,6 +565,9 @@ theorem rebuildAttr_cells (a b : AttrVal) (er : Bool) (d : Dom) (el : Id) (r : N
         · by_cases h2 : t = na
           · simp [h1, h2, hc1]
           · simp [h1, h2, hc1]
-  all_goals (simp [itemOk] at oka)
+  case psty.psty na va nb vb =>
+    exact rebuildAttr_cells_psty na nb va vb er d el r hg hk oka okb hcur hnew
+  case opsty.opsty na va nb vb =>
+    exact rebuildAttr_cells_opsty na nb va vb er d el r hg hk oka okb hcur hnew
 
 end Leptos.View
